@@ -18,12 +18,15 @@
 (***************************************************************************)
 EXTENDS Integers, Sequences, FiniteSets, TLC
 
+CONSTANT Deep      \* thorough tier: operators over two compound operands, literals up to length 4
+
 Prec == [x \in {"^", "*", "+", "-", "<", "=", "&"} |->
           CASE x = "^" -> 7 [] x = "*" -> 6 [] x \in {"+", "-"} -> 5 [] x = "<" -> 4 [] x = "=" -> 3 [] x = "&" -> 2]
 
 Num(n)        == [k |-> "num", n |-> n]
 Str(s)        == [k |-> "str", s |-> s]
 Ref           == [k |-> "ref"]                  \* contact.age, bound to 4
+Today         == [k |-> "today"]                \* date.today
 Paren(a)      == [k |-> "paren", a |-> a]
 Neg(a)        == [k |-> "neg", a |-> a]
 Bin(op, a, b) == [k |-> "bin", op |-> op, a |-> a, b |-> b]
@@ -33,6 +36,7 @@ Call(f, args) == [k |-> "call", f |-> f, args |-> args]
 N(v) == [t |-> "n", v |-> v]
 S(v) == [t |-> "s", v |-> v]
 B(v) == [t |-> "b", v |-> v]
+D(v) == [t |-> "d", v |-> v]            \* a calendar day, as an offset in days from today; shown in the environment's date format
 Bad  == [t |-> "bad", v |-> 0]
 Lim  == 30000
 InRange(v) == v >= -Lim /\ v <= Lim
@@ -52,12 +56,15 @@ Right(s, n) == CASE s = "ab" /\ n = 1 -> "b" [] s = "ab" /\ n >= 2 -> "ab"
 ArithOK(x, y) == x.t = "n" /\ y.t = "n"
 BinVal(op, x, y) ==
   IF x.t = "bad" \/ y.t = "bad" THEN Bad
-  ELSE CASE op = "+" -> IF ArithOK(x, y) /\ InRange(x.v + y.v) THEN N(x.v + y.v) ELSE Bad
-         [] op = "-" -> IF ArithOK(x, y) /\ InRange(x.v - y.v) THEN N(x.v - y.v) ELSE Bad
+  ELSE CASE op = "+" -> IF ArithOK(x, y) /\ InRange(x.v + y.v) THEN N(x.v + y.v)
+                        ELSE IF x.t = "d" /\ y.t = "n" /\ Abs(y.v) <= 60 THEN D(x.v + y.v)       \* a date plus a number: that many days later
+                        ELSE IF x.t = "n" /\ y.t = "d" /\ Abs(x.v) <= 60 THEN D(x.v + y.v) ELSE Bad
+         [] op = "-" -> IF ArithOK(x, y) /\ InRange(x.v - y.v) THEN N(x.v - y.v)
+                        ELSE IF x.t = "d" /\ y.t = "n" /\ Abs(y.v) <= 60 THEN D(x.v - y.v) ELSE Bad
          [] op = "*" -> IF ArithOK(x, y) /\ Abs(x.v) <= 170 /\ Abs(y.v) <= 170 THEN N(x.v * y.v) ELSE Bad
          [] op = "^" -> IF ArithOK(x, y) /\ y.v >= 0 /\ y.v <= 6 /\ Abs(x.v) <= 170 /\ PowInt(x.v, y.v) # Lim + 1 THEN N(PowInt(x.v, y.v)) ELSE Bad
-         [] op = "<" -> IF ArithOK(x, y) THEN B(x.v < y.v) ELSE Bad
-         [] op = "=" -> IF ArithOK(x, y) THEN B(x.v = y.v) ELSE IF x.t = "s" /\ y.t = "s" THEN B(x.v = y.v) ELSE Bad
+         [] op = "<" -> IF ArithOK(x, y) \/ (x.t = "d" /\ y.t = "d") THEN B(x.v < y.v) ELSE Bad
+         [] op = "=" -> IF ArithOK(x, y) \/ (x.t = "d" /\ y.t = "d") THEN B(x.v = y.v) ELSE IF x.t = "s" /\ y.t = "s" THEN B(x.v = y.v) ELSE Bad
          [] op = "&" -> IF x.t \in {"n", "s"} /\ y.t \in {"n", "s"} THEN S(Text(x) \o Text(y)) ELSE Bad
 
 CallVal(f, vs) ==
@@ -85,6 +92,7 @@ Den(t) ==
   CASE t.k = "num"   -> N(t.n)
     [] t.k = "str"   -> S(t.s)
     [] t.k = "ref"   -> N(4)
+    [] t.k = "today" -> D(0)
     [] t.k = "paren" -> Den(t.a)
     [] t.k = "neg"   -> LET x == Den(t.a) IN IF x.t = "n" THEN N(-x.v) ELSE Bad
     [] t.k = "bin"   -> BinVal(t.op, Den(t.a), Den(t.b))
@@ -98,6 +106,7 @@ Pr(t) ==
   CASE t.k = "num"   -> <<Tok("num", ToString(t.n))>>
     [] t.k = "str"   -> <<Tok("str", t.s)>>
     [] t.k = "ref"   -> <<Tok("ref", "contact.age")>>
+    [] t.k = "today" -> <<Tok("ref", "date.today")>>
     [] t.k = "paren" -> <<Sy("(")>> \o Pr(t.a) \o <<Sy(")")>>
     [] t.k = "neg"   -> <<Sy("-")>> \o Pr(t.a)
     [] t.k = "bin"   -> Pr(t.a) \o <<Sy(t.op)>> \o Pr(t.b)
@@ -108,7 +117,7 @@ Pr(t) ==
 Level(t) == IF t.k = "bin" THEN Prec[t.op] ELSE 9
 RECURSIVE Normal(_)
 Normal(t) ==
-  CASE t.k \in {"num", "str", "ref"} -> TRUE
+  CASE t.k \in {"num", "str", "ref", "today"} -> TRUE
     [] t.k = "paren" -> Normal(t.a)
     [] t.k = "neg"   -> Normal(t.a) /\ t.a.k # "bin"
     [] t.k = "bin"   -> Normal(t.a) /\ Normal(t.b) /\ Level(t.a) >= Prec[t.op] /\ Level(t.b) > Prec[t.op]
@@ -145,11 +154,21 @@ N3 == {Bin(op, w, z) : op \in NumOps, w \in Wrapped, z \in {Num(2), Num(3)}} \cu
         \cup {Call(f, <<z, w>>) : f \in {"SUM", "POWER", "MIN"}, w \in Wrapped, z \in {Num(2)}}
         \cup {Bin(op, w, z) : op \in {"<", "="}, w \in Wrapped, z \in {Num(5)}}
         \cup {Bin("&", w, Str("ab")) : w \in Wrapped}
-All == N1 \cup N2 \cup N3 \cup S1 \cup S2 \cup B1 \cup B2
+\* both operands compound (deep tier only: |N1|^2 trees per operator)
+N4 == IF Deep THEN {Bin(op, x, y) : op \in NumOps, x \in N1, y \in N1} \cup {Call(f, <<x, y>>) : f \in {"SUM", "POWER", "MAX", "MOD"}, x \in N1, y \in N1}
+      ELSE {}
+\* dates: only the forms whose migration is not itself a heuristic - today and today +- a literal number of days, at top
+\* level, parenthesised and compared with "=".  (A date plus a non-literal number migrates to legacy_add(..), which gives
+\* a datetime shown in ISO form, and "<" between two dates migrates to a comparison of formatted texts that does not
+\* evaluate: the statement is about grouping and argument order, those forms are left out and noted in DESIGN.md.)
+D0 == {Today} \cup {Bin("+", Today, n) : n \in {Num(2), Num(17)}} \cup {Bin("-", Today, n) : n \in {Num(2), Num(30)}}
+D1 == D0 \cup {Paren(d) : d \in D0 \ {Today}}
+DB == {Bin("=", a, b) : a \in D0, b \in D0}
+All == N1 \cup N2 \cup N3 \cup N4 \cup S1 \cup S2 \cup B1 \cup B2 \cup D1 \cup DB
 
 \* ---- string literals: doubled quotes are the only escape of the legacy grammar; a backslash is an ordinary character ----
 LitChars == {"q", "b", "c", "n"}      \* quote, backslash, some character, the letter n (so that backslash-n is in the space)
-Lits == UNION {[1..k -> LitChars] : k \in 0..3}
+Lits == UNION {[1..k -> LitChars] : k \in 0..(IF Deep THEN 4 ELSE 3)}
 Lit(cs) == [k |-> "lit", cs |-> cs]
 
 VARIABLE t
